@@ -17,11 +17,9 @@ LEVELS = {"C17": "proof", "C20": "proof"}
 def registry():
     import rules_protocol
     reg = {"C20": rules_protocol.check_C20, "C17": rules_protocol.check_C17}
-    try:
-        import rules_more
-        reg.update(rules_more.REGISTRY)
-    except ImportError:
-        pass
+    import rules_more
+    import rules_history
+    reg.update(rules_more.REGISTRY)
     return reg
 
 
